@@ -22,7 +22,7 @@ Require Import Hdl21.Base.PyInt Hdl21.Spec.PySlice Hdl21.Model.Slice Hdl21.Model
                Hdl21.Model.C01EElab Hdl21.Model.C01FElab Hdl21.Spec.C01FNets Hdl21.Proofs.C01FProofsEnd
                Hdl21.Spec.C19Topology Hdl21.Model.C19Series Hdl21.Proofs.C19Proofs
                Hdl21.Model.C19EDesign Hdl21.Proofs.C19EProofsStep Hdl21.Proofs.C19EProofsTopo Hdl21.Proofs.C19EProofsWf
-               Hdl21.Proofs.C19EProofsWrap Hdl21.Proofs.C19EProofsEnd.
+               Hdl21.Proofs.C19EProofsWrap Hdl21.Proofs.C19EProofsEnd Hdl21.Proofs.C19EProofsTerms.
 Open Scope string_scope.
 Open Scope Z_scope.
 
@@ -193,6 +193,48 @@ Theorem C19E_code_wide_rejected nm io a b w n : series_ok nm io a b w n = true -
   wf_design (series_design_code nm io a b n) <> Ok tt.
 Proof. exact (series_code_wide_rejected nm io a b w n). Qed.
 Print Assumptions C19E_code_wide_rejected.
+
+(* 11. THE TERMINALS of the design as Spec/Nets.v:terminals computes them, for every n: exactly the bits of the stack's ports
+       (device "") and the port bits of the n units (device = the unit) - so `stack_term` is the terminal list of the property;
+       and the end-to-end statement in the form of Props/C01F.v:C01F_end_to_end_partial (same_net_pkg on `terminals d`) *)
+Theorem C19E_terminals nm io a b w n : series_ok nm io a b w n = true ->
+  exists ts, terminals (series_design nm io a b w n) = Ok ts /\
+    forall t dev, In (t, dev) ts <-> (stack_port io t /\ dev = "") \/ (unit_port nm io n t /\ dev = sn_dev nm).
+Proof. exact (series_terminals nm io a b w n). Qed.
+Print Assumptions C19E_terminals.
+
+Theorem C19E_exported_on_terminals_partial nm io a b w n xi p ts :
+  series_ok nm io a b w n = true ->
+  let d := series_design nm io a b w n in
+  xinfo_ok xi d = true -> elab_export_model2 xi d = Ok p -> terminals d = Ok ts ->
+  (forall t dev, In (t, dev) ts <-> (stack_port io t /\ dev = "") \/ (unit_port nm io n t /\ dev = sn_dev nm)) /\
+  (forall t1 t2 dev1 dev2, In (t1, dev1) ts -> In (t2, dev2) ts ->
+     (same_net_pkg p (sn_mod nm) (term_map2 xi d t1) (term_map2 xi d t2) <-> series_node_key n a b t1 = series_node_key n a b t2)).
+Proof. exact (series_exported_terminals nm io a b w n xi p ts). Qed.
+Print Assumptions C19E_exported_on_terminals_partial.
+
+(* 12. what term_map2 does on these terminal bits, for EVERY design: a bit of a port of the top module is left alone; a port
+       bit of an instance of the top module keeps its port and its bit (only instance / element are renamed).  Hence in the
+       exported package the stack's own port bits are the nodes P q k themselves, and a terminal bit t is on the net of P q k
+       iff its key is KPort q k (with C19E_end_nets / C19E_parallel_nets: U 0 a k for q = a, U (n-1) b k for q = b, every
+       U e q k otherwise).  What is left of `_partial`: the NAME of the instance element e becomes. *)
+Theorem C19E_term_map_ports xi d s k : term_map2 xi d (NSig [] s k) = NSig [] s k.
+Proof. exact (term_map2_top_sig xi d s k). Qed.
+Print Assumptions C19E_term_map_ports.
+
+Theorem C19E_term_map_units xi d i e p k : exists i' e', term_map2 xi d (NPort [] i e p k) = NPort [] i' e' p k.
+Proof. exact (term_map2_top_port xi d i e p k). Qed.
+Print Assumptions C19E_term_map_units.
+
+Theorem C19E_exported_port_nets_partial nm io a b w n xi p :
+  series_ok nm io a b w n = true ->
+  let d := series_design nm io a b w n in
+  xinfo_ok xi d = true -> elab_export_model2 xi d = Ok p ->
+  exists pd, design_of_pkg prims_ext p (sn_mod nm) = Ok pd /\
+    forall q wq k t, In (q, wq) io -> 0 <= k < wq -> stack_term nm io n t ->
+      (same_net pd (term_map2 xi d t) (NSig [] q k) <-> series_node_key n a b t = KPort q k).
+Proof. exact (series_exported_port_nets nm io a b w n xi p). Qed.
+Print Assumptions C19E_exported_port_nets_partial.
 
 (* ---- non-vacuity: a 4-port unit with a two-bit gate, stacked 4 times over (d, s); a unit with two-bit series ports ---- *)
 Definition ex_dev : devinfo :=
